@@ -176,6 +176,11 @@ Definition mon_drv_indep (ins : list N) : bool :=
 
 Definition queue_monitor (k : N) (ins : list N) : list N :=
   if k =? 160 then [b2n (mon_safe ins)] else
+  (* kind 168 (C03): [available_desc(); queue size; descriptors held by the outstanding chains; indirect queue]: the counts
+     are exact (on an indirect queue available_desc() reports SIZE while a descriptor is free, else 0) *)
+  if k =? 168 then match ins with
+                   | [free; size; held; ind] => [b2n (if ind =? 1 then free =? (if held =? size then 0 else size) else free + held =? size)]
+                   | _ => [77777] end else
   (* kind 167 (C04): add_notify_wait_pop refused because an earlier chain completed first:
      [class; is WrongToken; unshares during the refused call; shares during it; expected shares; class of the later pop of
       the helper's own chain; unshares of that pop; platform-contract violations]: the refusal is WrongToken, the buffers
